@@ -113,7 +113,11 @@ def run(ctx):
     # ---------------- R2 conservation
     r2 = chk.rule("C13.R2", "the tail removed and the tail re-appended are the same `step` code points of the same text, then exactly র ্ tail",
                   "pressing the reph key turns p into p with র্ inserted at one position and nothing else changed")
-    rb = prog.body(reph_fn)
+    # the reph routine with its private helpers (scan, mobility test) spliced in; the internal back-space stays a call
+    from . import roles as _roles
+    bs_cands = {k for k, f in prog.fns.items() if (f.get("impl") or {}).get("self") == fx and (f.get("inputs") or [None, None])[1:] == ["usize"]}
+    rb = _roles.ib(prog, reph_fn, extra_stop=bs_cands)
+    inl = set(rb.fn.get("inlined") or [])
     # len = chars().count() of the buffer
     cnt = [(bb, t) for (bb, t) in rb.calls() if callee_name(t).endswith("::count")]
     skip = [(bb, t) for (bb, t) in rb.calls() if callee_name(t).endswith("::skip")]
@@ -152,7 +156,7 @@ def run(ctx):
         step_bs = operand_local(rb, bt["args"][1])
         same_step = step_skip is not None and step_skip == step_bs
         # no buffer write between count and the back-space
-        writes = [(f, op, bb2) for (f, op, bb2, w) in phonetic.field_writes(prog, reph_fn, mods) if f[:1] == (buf,)]
+        writes = [(f, op, bb2) for (f, op, bb2, w) in phonetic.field_writes(prog, reph_fn, mods, body=rb) if f[:1] == (buf,)]
         early = [w for w in writes if w[2] != bbb and rb.dominates(cbb, w[2]) and not rb.dominates(bbb, w[2]) and bbb in rb.reachable_from(w[2])]
         if not (len_on_buf and skip_on_buf and sub is not None):
             r2.violation("tail", "the saved tail is not chars().skip(len − step) of the buffer with len = chars().count() of the buffer", site_of(rb, sbb))
@@ -197,14 +201,14 @@ def run(ctx):
         for s in rb.rblocks:
             t = rb.blocks[s]["term"]
             if t["k"] == "switch" and t["discr_ty"] == "bool" and rb.dominates(s, bbb):
-                for (node, vals, tgt) in rb.switch_edges(s):
-                    if vals == (0,) and bbb not in rb.reachable_from(tgt):
-                        nm = tgt
+                away = [tgt for (node, vals, tgt) in rb.switch_edges(s) if bbb not in rb.reachable_from(tgt)]
+                if len(away) == 1:
+                    nm = away[0]
         if nm is None:
             r2.undecidable("append", "non-moveable branch not found")
         else:
             reg = rb.reachable_from(nm)
-            ws = [(op.split("::")[-1], bb2) for (f, op, bb2, w) in phonetic.field_writes(prog, reph_fn, mods) if bb2 in reg and f[:1] == (buf,)]
+            ws = [(op.split("::")[-1], bb2) for (f, op, bb2, w) in phonetic.field_writes(prog, reph_fn, mods, body=rb) if bb2 in reg and f[:1] == (buf,)]
             if [w[0] for w in ws] == ["push", "push"]:
                 r2.ok("append", "not moveable: exactly push(র) push(্)")
             else:
@@ -224,8 +228,8 @@ def run(ctx):
     fns = prog.reach([reph_fn], foreign_trait_impls=False)
     fns = {k for k in fns if (prog.fns[k].get("impl") or {}).get("self") == fx or prog.fns[k].get("kind") == "Closure"}
     n_ob = 0
-    for fk in sorted(fns):
-        b = prog.body(fk)
+    for fk in sorted(fns - inl):
+        b = rb if fk == reph_fn else prog.body(fk)
         short = fk.split("::")[-1] if prog.fns[fk].get("kind") != "Closure" else fk.split("::")[-2] + "::closure"
         for (bb, t) in b.calls():
             n = callee_name(t)
@@ -394,9 +398,12 @@ def suffix_bytes_idiom(prog, ib, buf):
     l, r = strip_refs(sub.a[1]), strip_refs(sub.a[2])
     if not (l.k == "call" and l.a[0].endswith("String::len") and self_path(l.a[1][0]) == (buf,)):
         return False, "minuend is not buffer.len()"
-    if not (r.k == "call" and r.a[0].endswith("::fold")):
-        return False, "subtrahend is %s, not a fold over the removed characters' len_utf8" % (r.a[0] if r.k == "call" else r.k)
-    it = strip_refs(r.a[1][0])
+    is_fold = r.k == "call" and r.a[0].endswith("::fold")
+    is_sum = r.k == "call" and r.a[0].endswith("Iterator::sum") and strip_refs(r.a[1][0]).k == "call" and strip_refs(r.a[1][0]).a[0].endswith("Iterator::map")
+    if not (is_fold or is_sum):
+        return False, "subtrahend is %s, not a fold / sum over the removed characters' len_utf8" % (r.a[0] if r.k == "call" else r.k)
+    mp = strip_refs(r.a[1][0]) if is_sum else None
+    it = strip_refs(mp.a[1][0]) if is_sum else strip_refs(r.a[1][0])
     names = []
     x = it
     while x.k == "call":
@@ -409,6 +416,17 @@ def suffix_bytes_idiom(prog, ib, buf):
     take_n = strip_refs(strip_refs(it).a[1][1])
     if not (take_n.k == "arg" and take_n.a[0] == 2):
         return False, "take() does not use the step parameter"
+    if is_sum:
+        # Σ over map(f) with f = char::len_utf8 (by name, or a closure returning exactly len_utf8 of its argument)
+        f = strip_refs(mp.a[1][1])
+        if f.k == "const" and isinstance(f.a[0], tuple) and f.a[0][0] == "fn" and f.a[0][1].endswith("len_utf8"):
+            return True, ""
+        if f.k == "agg" and str(f.a[0]).startswith("closure:"):
+            cb = prog.body(f.a[0][8:])
+            ret = strip_refs(peel_conv(cb.expr_local(0)))
+            if ret.k == "call" and ret.a[0].endswith("len_utf8") and strip_refs(ret.a[1][0]).k == "arg" and not [y for y in ret.walk() if y.k == "bin"]:
+                return True, ""
+        return False, "the summed map function is not char::len_utf8"
     init = strip_refs(r.a[1][1])
     if not is_const(init, "int", 0):
         return False, "fold does not start at 0"
